@@ -151,6 +151,29 @@ def r4_error_mapping(ctx, rule="C18.R4"):
                      if s["k"] == "assign" and s["r"]["k"] == "agg" and s["r"].get("adt") == RE]
             if built:
                 pairs[kinds[0]] = built[0]
+    # the same mapping spelled as a match on the kind: a switch on the discriminant of an ErrorKind
+    for b, blk in enumerate(fn.body.blocks):
+        t = blk["t"]
+        if t["k"] != "switch":
+            continue
+        discr = [s["r"] for s in blk["s"] if s["k"] == "assign" and s["r"]["k"] == "discr"
+                 and (s["r"].get("adt") or "").endswith("ErrorKind")]
+        if not discr:
+            continue
+        adt = prog.adts.get(discr[-1]["adt"])
+        if not adt:
+            continue
+        names = {v["discr"]: v["name"] for v in adt["variants"]}
+        targets = [tg for _, tg in t["ts"]] + [t["else"]]
+        for v, tg in t["ts"]:
+            kind = names.get(v)
+            if kind not in ("NotFound", "UnexpectedEof"):
+                continue
+            region = fn.body.reachable(tg, avoid=set(x for x in targets if x != tg))
+            built = [s["r"]["variant"] for bb in sorted(region) for s in fn.body.blocks[bb]["s"]
+                     if s["k"] == "assign" and s["r"]["k"] == "agg" and s["r"].get("adt") == RE]
+            if built:
+                pairs.setdefault(kind, built[0])
     ctx.decide(pairs.get("NotFound") == "FileNotFound", rule, rule + ":NotFound->FileNotFound", fn.loc,
                "io NotFound -> FileNotFound (53)", "io::ErrorKind::NotFound maps to %s" % pairs.get("NotFound"))
     ctx.decide(pairs.get("UnexpectedEof") == "InputPastEndOfFile", rule, rule + ":UnexpectedEof->InputPastEndOfFile",
